@@ -45,6 +45,15 @@ pub fn generate(g: &mut Gen, thorough: bool) {
             }
         }
     }
+    // operators that do not declare lon_0 (webmerc; utm and butm have their zone): given all the same, it is ignored —
+    // or, should it be accepted one day, it means what it means everywhere
+    for (def, lon_0) in [("webmerc", 10.0), ("webmerc ellps=intl", -75.5), ("utm zone=32", 3.0), ("butm zone=33", 9.0)] {
+        let d = proj::random(&mut g.rng, "merc");
+        let centred = ProjDef { centre: (if def.contains("zone=32") { 9.0 } else if def.contains("zone=33") { 15.0 } else { 0.0 }, 30.0), extent: (2.5, 50.0), ..d };
+        let pts = proj::points(&mut g.rng, &centred, 6);
+        pair(g, "lon0opt", &format!("{def} lon_0={lon_0}"), def, &[lon_0], &pts, "oracle-lon0-undeclared");
+        g.push(op_line("default", &[], &[], &format!("{def} lon_0={lon_0}"), "apply", "F", &data_of(&pts)), "model-lon0-undeclared", true);
+    }
     // angular parameters written with minutes and seconds, between -1 and 0 degrees (the sign sits on a zero)
     for name in proj::PROJECTIONS {
         let d: ProjDef = proj::random(&mut g.rng, name);
